@@ -6,6 +6,7 @@ PROP = {
     "theorems": ["Grol.Save.C14.sorted_one_per_binding", "Grol.Save.C14.one_line", "Grol.Save.C14.one_line_std",
                  "Grol.Save.C14.data_binding_line", "Grol.Save.C14.limit_skips", "Grol.Save.C14.int_roundtrip",
                  "Grol.Save.C14.partial", "Grol.Save.C14.readBack_printed",
+                 "Grol.Save.C14.quote_roundtrip", "Grol.Save.C14.quoteBody_ascii", "Grol.Save.readLoop_quoted", "Grol.Save.quoteByte_shape",
                  "Grol.Save.sortB_perm", "Grol.Save.sortB_sorted", "Grol.Save.saveSorted_spec",
                  "Grol.Save.inspectP_noNL", "Grol.Save.quoteAscii_noNL", "Grol.Save.floatBytes_noNL",
                  "Grol.Save.parseDecInt_digitBytes"],
@@ -39,7 +40,7 @@ PROP = {
         "theorems use the byte-level printers quoteAscii / floatBytes / intBytes, which the driver compares with the evaluator model's "
         "quoteBytes / floatStr / int64Str and with the implementation on every scalar of every case",
         "NOT modelled (checked on the implementation by the suite only): the loading side as a whole - lexer + parser + evaluator on the saved "
-        "text (composed only for integers, booleans and nil in readBack), strconv.ParseFloat/FormatFloat round trip, functions behaving identically, "
+        "text (composed only for integers, booleans, nil and ASCII strings in readBack), strconv.ParseFloat/FormatFloat round trip, functions behaving identically, "
         "the file paths (save/load/AutoSave/AutoLoad: compared with the in-process path, not predicted)",
     ],
     "assumptions": ["strconv.FormatFloat('f', -1) / ParseFloat round-trip every finite float64 (Go library law; exercised by the float pool, not proved)",
@@ -51,7 +52,7 @@ LEVEL = {
     "text": "Kernel-checked theorems about a Lean model of SaveGlobals and of the printed forms: for every store the lines are written in key order, exactly one "
             "per written binding; the printed form of every data value (any nesting) has no newline byte, so each data binding is exactly one line "
             "name=text; under a length limit a line is the full line or absent; the printed form of every int64, both extremes included, evaluates back to "
-            "it. The full property is stated (Statement) and proved for stores whose data are integers, booleans and nil (partial); strings, floats, "
+            "it; for every string of bytes below 0x80 the lexer model's string reader applied to its quoted form returns exactly the string and consumes exactly the literal (the strconv.Quote / readString pair, by induction on the string). The full property is stated (Statement) and proved for stores whose data are integers, booleans, nil and ASCII strings (partial); non-ASCII strings, floats, "
             "containers and functions are covered by the correspondence suite, which saves ~1.1k (quick) / ~11k (thorough) generated environments with the "
             "real code, loads them back both ways into fresh states, compares values, second save, calls of reloaded functions, the limit, and the real files.",
     "design_ref": "DESIGN.md section 7, C14",
